@@ -1220,6 +1220,21 @@ fn shared_store_cases(prop: &str, rng: &mut Rng, quick: bool, st: &mut Stats, c:
         }
         st.bump("large_contents_differing_in_one_middle_byte");
     }
+    // coordinates a few ulps away from the half-step ties next to zero (products of about +-0.5 and +-1.5)
+    if prop == "C01" || prop == "C16" {
+        for k in 0..4u64 {
+            let mut f: Vec<String> = Vec::new();
+            for j in 0..6u64 {
+                let i = [0i64, -1, 1, -2][((k + j) % 4) as usize];
+                let t = (i as f64 + 0.5) / 1e7;
+                let bits = t.to_bits().wrapping_add(1 + (k + 2 * j) % 4).wrapping_sub(if j % 2 == 0 { 0 } else { 5 });
+                f.push(f64_tok(f64::from_bits(bits)));
+            }
+            let ops = format!("h:1:1:0:5:2:{};a:3:0102;a:9:0304", f.join(":"));
+            push(c, k as usize, ops.clone(), Some(format!("a:9:0304;a:3:0102;h:1:1:0:5:2:{}", f.join(":"))));
+            st.bump("coordinates_next_to_the_ties_around_zero");
+        }
+    }
     // equal contents whose ids are exactly 2^32 + run apart
     for (k, (dist, run)) in [(1u64 << 32, 3u64), (1 << 32, 1), (2 << 32, 2)].iter().enumerate() {
         let ca = "0a0b0c0d0e";
